@@ -297,6 +297,9 @@ def C01(tier, seed):
     traces(c, binp, "parse", tier)
     traces(c, binp, "hist", tier, quick_n=1500)
     traces(c, binp, "sub", tier, quick_n=1500)
+    # long inputs once more through an UNOPTIMISED build: recursion that the optimiser turns into a loop overflows the stack there
+    dev = build_harness(("likelysubtags",), profile="dev")
+    traces(c, dev, "deep", tier, quick_n=18, thorough_n=90, chunks_q=1, chunks_t=4, tag="-dev")
     return c.finish(rule="every text-accepting entry point on every enumerated token/byte sequence and operation argument (valid, boundary, invalid) plus seeded random/mutated inputs; outcome must be ok or err (panic location, CPU-time hang and abnormal exit are recorded as data); non-trivial = inputs that got past the first token / operations actually applied",
                     assumptions=ASSUME_COMMON + ["stack overflow / abort are detected as an abnormal exit of the replay process"], exhaustive=False)
 
